@@ -229,7 +229,8 @@ PAUSES = [None, None, 0, 3000, 7000, 10000, 15000, 20000, 40000]
 def ctx_nodes(case, t):
     """nodes reachable from task t (through the overrides too) that take the Context"""
     roots = [d for d, _ in case["tasks"][t]["deps"]] + [b for _, b in case.get("overrides") or []]
-    return [k for k in reachable(case["nodes"], roots) if case["nodes"][k].get("ctx")]
+    return [k for k in reachable(case["nodes"], roots) if case["nodes"][k].get("ctx")
+            and (case["nodes"][k].get("src") or {}).get("kind") != "brk"]
 
 
 def gen_muts(r, case, m, n=None, focus=False):
@@ -878,6 +879,214 @@ def gen_case(r):
     return add_excs(gen_case0(r))
 
 
+# --------------------------------------------------------------------------- ways to come by the Context / message / broker
+PROV_STYLES = ("plain", "plain", "coro", "coro", "gen", "agen")
+
+
+def gen_src(r, nprov, hot=None):
+    """how one node / task function comes by its Context (deps_driver.src_param)"""
+    x = r.random()
+    if hot is not None and x < .5:
+        return dict(hot)
+    x = r.random()
+    if x < .45:
+        return {"kind": "ctx", "cached": False}
+    if x < .57:
+        return {"kind": "msg", "cached": r.random() < .5}
+    if x < .65:
+        return {"kind": "brk", "cached": r.random() < .5}
+    if nprov:
+        return {"kind": "prov", "prov": r.randrange(nprov), "cached": r.random() < .5}
+    return {"kind": "ctx", "cached": False}
+
+
+def gen_provs(r, n):
+    return [{"style": r.choice(PROV_STYLES), "get": r.choice(["ctx", "ctx", "msg", "msg", "brk"]), "pc": r.random() < .5}
+            for _ in range(n)]
+
+
+def is_exotic(src):
+    return bool(src) and not (src["kind"] == "ctx" and src.get("cached", True))
+
+
+def task_sources(case, t):
+    """every way the task function of task t and the nodes it can reach (through the overrides too: which of original /
+    replacement is resolved is the implementation's business) ask for a Context / message / broker, other than the cached
+    Context: (where, src)"""
+    spec = case["tasks"][t]
+    out = []
+    if spec.get("ctx") and is_exotic(spec.get("src")):
+        out.append(("task", spec["src"]))
+    roots = [d for d, _ in spec["deps"]]
+    ov = case.get("overrides") or []
+    reach = set(reachable(case["nodes"], roots))
+    for _ in range(len(ov) + 1):
+        reach |= set(reachable(case["nodes"], [b for a, b in ov if a in reach]))
+    for k in sorted(reach):
+        n = case["nodes"][k]
+        if n.get("ctx") and is_exotic(n.get("src")):
+            out.append(("node %d" % k, n["src"]))
+    return out
+
+
+def asks_sources(case, t):
+    return bool(task_sources(case, t))
+
+
+def src_descr(case, src):
+    how = "cached" if src.get("cached", True) else "use_cache=False"
+    names = {"ctx": "Context", "msg": "TaskiqMessage", "brk": "AsyncBroker"}
+    if src["kind"] == "prov":
+        p = case["provs"][src["prov"]]
+        return "%s handed on by a provider (%s) that takes the Context %s" % (
+            names[p["get"]], how, "cached" if p.get("pc", True) else "use_cache=False")
+    return "%s requested from the resolver, %s" % (names[src["kind"]], how)
+
+
+def strip_setmsg(case):
+    """`setmsg` re-assigns the message of ONE Context object; with several ways to come by a Context an execution may
+    hold several of them, and "its own message plus its own writes" would depend on which one is asked"""
+    for m in case["msgs"]:
+        if m.get("muts"):
+            m["muts"] = [mu for mu in m["muts"] if mu["op"] != "setmsg"]
+            if not m["muts"]:
+                del m["muts"]
+
+
+def gen_source_case(r):
+    """aimed at the ways a task function / a dependency comes by its Context, its message and its broker: the cached
+    Context (control), Context with use_cache=False, TaskiqMessage / AsyncBroker requested from the resolver, nested
+    providers (plain / coroutine / generator / async generator, taking the Context cached or un-cached, shared by several
+    consumers) handing on the Context / the message / the broker - requested by the task function and by nested nodes
+    of every style, with an awaiting dependency (the gate) resolved before them, so that 2-4 executions overlap inside
+    dependency resolution: whatever an execution gets to see that way must be its own message."""
+    provs = gen_provs(r, r.choice([0, 1, 1, 2]))
+    hot = gen_src(r, len(provs))
+    st = lambda: r.choice(STYLES + YIELDING)   # noqa: E731
+    some = lambda p: gen_src(r, len(provs), hot) if r.random() < p else None   # noqa: E731
+    nodes = [
+        {"style": r.choice(ASYNC_STYLES), "ctx": r.random() < .6, "subs": [], "swallow": False, "user": False},          # gate
+        {"style": st(), "ctx": True, "subs": [[0, True]] if r.random() < .5 else [], "swallow": False,
+         "user": r.random() < .2},                                                                                      # reader
+        {"style": st(), "ctx": r.random() < .8, "subs": [[0, True], [1, r.random() < .5]], "swallow": r.random() < .1,
+         "user": False},                                                                                                # parent
+    ]
+    if r.random() < .3:
+        nodes[2]["subs"].reverse()
+    for k, p in ((1, .7), (2, .35), (0, .1)):
+        src = some(p)
+        if src and nodes[k]["ctx"]:
+            nodes[k]["src"] = src
+    tasks = []
+    for t in range(r.choice([1, 1, 2])):
+        deps = [[0, True]] if r.random() < .8 else []
+        deps += [[r.choice([1, 2, 2]), r.random() < .6] for _ in range(r.choice([0, 1, 1, 2]))]
+        if r.random() < .2:
+            deps.reverse()
+        spec = {"deps": deps, "ctx": r.random() < .9, "sync": r.random() < .15}
+        src = some(.6 if t == 0 else .3)
+        if src and spec["ctx"]:
+            spec["src"] = src
+        tasks.append(spec)
+    if not any(asks_sources({"nodes": nodes, "tasks": tasks}, t) for t in range(len(tasks))):
+        tasks[0].update(ctx=True, src={"kind": "ctx", "cached": False})
+        if not tasks[0]["deps"]:
+            tasks[0]["deps"] = [[0, True]]
+    k = r.choice([2, 2, 3, 3, 4])
+    spacing = r.choice(["overlap", "overlap", "overlap", "overlap", "mixed", "sequential"])
+    step = r.choice([1000, 3000, 5000])
+    msgs = []
+    for i in range(k):
+        t = 0 if r.random() < .7 else r.randrange(len(tasks))
+        seq = spacing == "sequential" or (spacing == "mixed" and r.random() < .4)
+        m = {"task": t, "start": i * 400000 if seq else i * step, "pauses": [r.choice([10000, 20000, 40000])] + [
+            r.choice(PAUSES) for _ in range(r.choice([0, 0, 1]))],
+             "dur": [] if tasks[t]["sync"] else [r.choice([0, 2000, 12000])], "ackable": r.choice(["sync", "async", "none"]),
+             "kw": r.random() < .8, "outcome": r.choice(["return", "return", "return", "raise", "noresult"])}
+        if r.random() < .1:
+            m["nolabels"] = True
+        if r.random() < .08:
+            reach = reachable(nodes, [d for d, _ in tasks[t]["deps"]])
+            if reach:
+                m["fail"] = {"node": r.choice(reach), "when": "early"}
+        if r.random() < .2:
+            m["save_pause"] = r.choice([0, 5000, 15000])
+        msgs.append(m)
+    case = {"nodes": nodes, "tasks": tasks, "msgs": msgs, "provs": provs, "propagate": r.random() < .5,
+            "ack": r.choice(["when_received", "when_executed", "when_saved", "when_saved"]), "middleware": r.random() < .5,
+            "via_inmemory": r.random() < .3, "user_ctx": r.choice([None, None, 7])}
+    if r.random() < .15:
+        # an override whose replacement asks in another way than the original
+        nodes.append({"style": st(), "ctx": True, "subs": [[0, True]], "swallow": False, "user": False,
+                      "src": gen_src(r, len(provs), hot)})
+        case["overrides"] = [[1, 3]]
+    if r.random() < .25:
+        for m in msgs:
+            if r.random() < .5:
+                gen_muts(r, case, m, 1)
+        strip_setmsg(case)
+    return case
+
+
+def add_sources(case):
+    """the same dimension, thinly, over cases of every other kind: one or two of the nodes / task functions that take the
+    Context ask for it (or for the message / the broker) in another way.  Drawn from a generator of its own."""
+    rr = case_rng(case, "src")
+    slots = [("t", t) for t, spec in enumerate(case["tasks"]) if spec.get("ctx")]
+    slots += [("n", k) for k in sorted({k for t in range(len(case["tasks"])) for k in ctx_nodes(case, t)})]
+    if not slots:
+        return case
+    case["provs"] = gen_provs(rr, rr.choice([0, 1, 1]))
+    for kind, k in rr.sample(slots, min(len(slots), rr.choice([1, 1, 2]))):
+        (case["tasks"] if kind == "t" else case["nodes"])[k]["src"] = gen_src(rr, len(case["provs"]))
+    strip_setmsg(case)
+    return case
+
+
+def gen_case_c06(r):
+    """the stream of C06: that of gen_case, with 7 % of it aimed at the ways to come by the Context / message / broker and
+    4 % of the rest carrying that dimension thinly.  (C12 keeps gen_case: its statement is about executions that reach
+    their task function or fail in a scripted dependency.)"""
+    x = r.random()
+    if x < .07:
+        return add_excs(add_path(r, gen_source_case(r)))
+    case = gen_case(r)
+    if x < .11:
+        case = add_sources(case)
+    return case
+
+
+def source_profile(case, ex):
+    """evidence keys: how Context / message / broker were asked for, what became of the executions that did, and whether
+    the request was served after another message had entered run_task (overlap inside dependency resolution)"""
+    keys = []
+    begins = sorted(d.begin_at for d in ex if d.begin_at is not None)
+    for d in ex:
+        srcs = task_sources(case, d.msg["task"])
+        if not srcs:
+            continue
+        for where, src in srcs:
+            keys.append("source: %s, by %s" % (src_descr(case, src), "the task function" if where == "task" else "a nested dependency"))
+            if src["kind"] == "prov":
+                keys.append("source: provider style %s" % case["provs"][src["prov"]]["style"])
+        if d.body is not None:
+            end = "task function reached"
+        elif d.fail:
+            end = "scripted dependency failure"
+        else:
+            errs = sorted({s.get("err") or "?" for _, _, s in d.saves}) or ["nothing stored"]
+            end = "ended in dependency resolution with its own error (%s)" % ", ".join(errs)
+        # the moment the request was served / refused: the first read of the task function, else the end of the resolution
+        at = d.body[0] if d.body is not None else min([g for g, _, _ in d.saves] + [g for g, _ in d.on_error] + (
+            [d.cb_done_at] if d.cb_done_at is not None else []) or [None])
+        late = d.begin_at is not None and at is not None and any(d.begin_at < b < at for b in begins)
+        keys.append("source: execution asking that way: %s, %s" % (
+            end, "another message entered run_task while its dependencies were resolved" if late else "no overlap inside resolution"))
+    if not keys:
+        keys.append("source: cached Context only")
+    return keys
+
+
 def gen_case0(r):
     x = r.random()
     if x < .12:
@@ -1277,6 +1486,7 @@ def finish(case, d, log):
     d.preads = []             # (global idx, when, canonical value) - the validated parameter as the task function holds it
     d.val = val_info(case, d.i)
     d.user_reads = []         # (global idx, node, tag of the user entry the node was given)
+    d.brk_reads = []          # (global idx, where, is it the case's broker) - a broker obtained without a Context
     d.effs = []               # Coq eff literals in order
     d.begin_at = None
     d.save_failed = False
@@ -1311,6 +1521,11 @@ def finish(case, d, log):
                 d.reads.append((g, ctxnum.get(e[4]), e[5], "node %d" % e[2]))
             if len(e) > 6 and e[6] is not None:
                 d.user_reads.append((g, e[2], e[6]))
+        elif k == "prov":
+            if e[4] is not None:
+                d.reads.append((g, ctxnum.get(e[3]), e[4], "provider %d" % e[2]))
+        elif k == "brk":
+            d.brk_reads.append((g, e[2], bool(e[3])))
         elif k == "fail":
             d.fail = True
             d.finish_at = g if d.finish_at is None else d.finish_at
@@ -1531,6 +1746,14 @@ def oracle_c06(case, d, all_execs):
                     "(as sent, plus its own writes)",
                     dict(execution=i, reader="parameter pv (%s)" % when, saw=got, at=g),
                     None if d.val is None else dict(raw=d.val["raw"], converted=d.val["conv"]), {"kind": "foreign-write"}))
+    for g, where, same in d.brk_reads:
+        if not same:
+            out.append(("a broker obtained through the dependencies of one execution is not the broker that received its message",
+                        dict(execution=i, reader=where, at=g), "the receiving broker", {"kind": "context"}))
+    # An execution whose graph asks for its Context / message / broker in another way than the cached Context may end
+    # while its dependencies are resolved, with an error of its own (the way may be unsupported): it then observed
+    # nothing foreign.  C06 does not say such a request has to be served.
+    own_failure = d.body is None and not d.fail and asks_sources(case, d.msg["task"])
     want_tag = case.get("user_ctx") if case.get("user_ctx") is not None else -1
     for g, node, tag in d.user_reads:
         if tag != want_tag:
@@ -1556,6 +1779,14 @@ def oracle_c06(case, d, all_execs):
                         dict(execution=i, task_id=tid, result=s), "own id, own payload", {"kind": "result"}))
         # the stored result reflects what this execution did
         want_err = d.expected_err
+        if own_failure:
+            # ended while its dependencies were resolved, by an error nobody scripted: isolated as long as that error
+            # is its own - stored (if at all) under its own id (checked above), carrying no message's payload
+            if not s.get("is_err") or not s.get("err") or s.get("err_payload") is not None or s.get("ret") is not None:
+                out.append(("the result stored for a message does not stem from that message's execution",
+                            dict(execution=i, result=s, outcome=d.outcome, dep_failed=d.fail),
+                            "an error of its own (its dependencies could not be resolved)", {"kind": "result"}))
+            continue
         if (s.get("err") or None) != want_err or (want_err is None and not isinstance(s.get("ret"), dict)):
             out.append(("the result stored for a message does not stem from that message's execution",
                         dict(execution=i, result=s, outcome=d.outcome, dep_failed=d.fail), want_err,
@@ -1565,7 +1796,7 @@ def oracle_c06(case, d, all_execs):
                     {"kind": "result"}))
     # the execution did what its message asked for (nothing leaked in from another message's plan)
     planned_fail = d.msg.get("fail") is not None
-    if d.body is None and not d.fail:
+    if d.body is None and not d.fail and not own_failure:
         out.append(("an execution neither reached its task function nor failed in a scripted dependency",
                     dict(execution=i, cb_done=d.cb_done, saves=[s for _, _, s in d.saves]), "task function runs",
                     {"kind": "outcome"}))
@@ -1611,6 +1842,7 @@ def sharing_profile(case, ex):
     keys += value_profile(case, ex)
     keys += wire_profile(case, ex)
     keys += exc_profile(case, ex)
+    keys += source_profile(case, ex)
     tids = {}
     for d in ex:
         tids.setdefault(d.sent["tid"], []).append(d)
@@ -1750,6 +1982,19 @@ def _drop_node(case, k):
     return c
 
 
+def _src_variants(variant, case, what, k):
+    """simpler ways to come by the Context: the cached Context; the resolver asked directly instead of a provider"""
+    src = case[what][k].get("src")
+    if not src:
+        return
+    variant(lambda c: c[what][k].pop("src"))
+    if src["kind"] == "prov":
+        p = case["provs"][src["prov"]]
+        variant(lambda c: c[what][k].update(src={"kind": p["get"], "cached": bool(p.get("pc", True))}))
+        if p["style"] != "plain":
+            variant(lambda c: c["provs"][src["prov"]].update(style="plain"))
+
+
 def reductions(case):
     """all one-step simplifications of a case (each still a well-formed case)"""
     out = []
@@ -1793,6 +2038,7 @@ def reductions(case):
             variant(lambda c, t=t, j=j: c["tasks"][t]["deps"].pop(j))
         variant(lambda c, t=t: c["tasks"][t].update(sync=False))
         variant(lambda c, t=t: c["tasks"][t].update(ctx=False))
+        _src_variants(variant, case, "tasks", t)
     for k in range(len(case["nodes"])):
         out.append(_drop_node(case, k))
         for j in range(len(case["nodes"][k]["subs"])):
@@ -1800,6 +2046,7 @@ def reductions(case):
             variant(lambda c, k=k, j=j: c["nodes"][k]["subs"][j].__setitem__(1, True))
         variant(lambda c, k=k: c["nodes"][k].update(swallow=False))
         variant(lambda c, k=k: c["nodes"][k].update(ctx=False))
+        _src_variants(variant, case, "nodes", k)
         st = case["nodes"][k]["style"]
         if st in YIELDING and st != "gen":
             variant(lambda c, k=k: c["nodes"][k].update(style="gen"))
